@@ -307,7 +307,9 @@ def run_program(name, seed, options=None):
         w = spy.wrappers[-1]
         info['tau'] = tau_d
         if tau_d is None:
-            fails.append(('C16', 'unexpected_none', 'a bounded feasible model returned None'))
+            # every template is a bounded, feasible model: no value means that what was solved is not the declared model (or its certificate / instance is missing)
+            for pid_ in ('C01', 'C02', 'C05', 'C11', 'C13', 'C14', 'C16'):
+                fails.append((pid_, 'unexpected_none', 'a bounded feasible model returned None'))
             return info, fails
         check_sent(pep, w, fails)
         # constraints the template declared (kept in its handles at declaration time) reach the solver, whatever the library's lists say after the solve
